@@ -3,9 +3,12 @@
 // Targets
 //   obs_model            stateful history over a MeterProvider with 1..3 in-harness MetricReaders of
 //                        mixed temporality and 1..2 meters: observable counter / up-down counter /
-//                        gauge x long/double; AddCallback / RemoveCallback / RemoveCallback of a
-//                        triple that is not registered / destroy instrument / create instrument /
-//                        edit the script a (callback,state) pair reports next / Collect(reader i).
+//                        gauge x long/double, optionally behind a view (renamed stream, aggregation
+//                        named explicitly, two views = two streams) and optionally as a further handle
+//                        for an instrument name used before (second live handle, or re-creation after
+//                        destruction); AddCallback / RemoveCallback / RemoveCallback of a triple that
+//                        is not registered / destroy instrument / create instrument / edit the script
+//                        a (callback,state) pair reports next / Collect(reader i).
 //   sync_gauge_storage   synchronous-gauge clause at the storage level (every ABI): SyncMetricStorage
 //                        with a kGauge descriptor and last-value aggregation collected through the
 //                        MetricCollectors of a MeterContext (1..3 readers, cumulative and delta).
@@ -13,8 +16,11 @@
 //                        compiled with OPENTELEMETRY_ABI_VERSION_NO >= 2 (thorough tier binary).
 //
 // Oracles (written from the statement, independent of the SDK's aggregation code)
-//   * invocation counters per (callback,state) pair: +1 per live registration per Collect, 0 for a
-//     pair that is not registered (removed, or its instrument destroyed);
+//   * invocation counters: +1 per live registration per Collect, 0 for a registration that is gone
+//     (removed, or its instrument destroyed).  Callbacks whose state index is 2 get a state object
+//     of their own per (state, instrument), so their counter is per (callback, state, instrument)
+//     triple; the others share one state object per index (the same pair may then sit on two
+//     instruments) and are counted per pair and value type;
 //   * per (instrument, attribute set) the last observed total; per (reader, instrument, set) the
 //     total that reader has been given so far.  cumulative reader: point == observed total for
 //     every set in the current observation; delta reader: point == total - what THAT reader was
@@ -23,7 +29,10 @@
 //     delivered it has to follow the same rule (last observed total / latest value); a point for a
 //     set that was never observed, or two points for one set, are violations;
 //   * synchronous gauge: every set recorded since the reader's previous Collect is delivered (for a
-//     reader configured cumulative: every set ever recorded), each with the latest recorded value.
+//     reader configured cumulative: every set ever recorded), each with the latest recorded value;
+//     behind a view with an attribute allow-list the sets are the filtered ones and "latest" is the
+//     later Record of all spellings that collapse into one set;
+//   * a delivered last-value point is flagged valid.
 //
 // Not generated: two samples with the same system_clock timestamp (the SDK reads the clock itself).
 // The harness reads the clock around every step and abandons a case (tag clock-anomaly, no verdict)
@@ -36,6 +45,7 @@
 #include <memory>
 #include <set>
 #include <string>
+#include <unordered_map>
 #include <utility>
 #include <vector>
 
@@ -56,6 +66,9 @@
 #include "opentelemetry/sdk/metrics/state/metric_collector.h"
 #include "opentelemetry/sdk/metrics/state/sync_metric_storage.h"
 #include "opentelemetry/sdk/metrics/view/attributes_processor.h"
+#include "opentelemetry/sdk/metrics/view/instrument_selector.h"
+#include "opentelemetry/sdk/metrics/view/meter_selector.h"
+#include "opentelemetry/sdk/metrics/view/view.h"
 #include "opentelemetry/sdk/metrics/view/view_registry.h"
 #include "opentelemetry/sdk/resource/resource.h"
 #include "sdkgen.h"
@@ -401,11 +414,27 @@ std::map<int, Val> index_points(vh::Case &c, const MD &md, int want_kind, bool w
     VH_CHECK(c, p.v.dbl == want_dbl, what << ": point for " << p.attrs << " carries a "
                                           << (p.v.dbl ? "double" : "long") << " value");
     VH_CHECK(c, !m.count(s), what << ": two points for the attribute set " << p.attrs);
-    if (!p.lv_valid)
-      c.tag("lastvalue-point-flagged-invalid");
+    // a delivered last-value point reports a value that was observed / recorded, so it is a valid sample
+    VH_CHECK(c, p.lv_valid, what << ": the last-value point for " << p.attrs << " (value " << show(p.v)
+                                 << ") is flagged is_lastvalue_valid_ = false");
     m[s] = p.v;
   }
   return m;
+}
+// the same, merging into `m` (several MetricData of one stream name)
+void index_points_into(vh::Case &c,
+                       std::map<int, Val> &m,
+                       const MD &md,
+                       int want_kind,
+                       bool want_dbl,
+                       const std::string &what)
+{
+  for (auto &kv : index_points(c, md, want_kind, want_dbl, what))
+  {
+    VH_CHECK(c, !m.count(kv.first), what << ": two points for the attribute set " << set_name(kv.first)
+                                         << " in two MetricData of one stream name");
+    m[kv.first] = kv.second;
+  }
 }
 
 // ================================================================================================
@@ -415,35 +444,53 @@ constexpr int kFns    = 2;
 constexpr int kStates = 3;
 constexpr int kSlots  = kFns * kStates;
 constexpr size_t kMaxInsts = 5;
+constexpr int kMaxMult     = 3;
+
+// GENUINE-DEFECT CANDIDATE "C17-double-registration" (see proposed_fixes/C17-double-registration.*):
+// AddCallback of a (callback, state) pair that is already registered on the instrument makes the
+// SDK invoke the pair twice per collection, and the second invocation's Record replaces the
+// not-yet-collected difference of the first by 0: every reader is given 0 instead of the reported
+// total.  The shape is generated only when this is false AND the finding is not listed as open.
+const bool kHoldBack_double_registration = false;  // finding fixed in /repo 682a6ea
 
 struct ObsHarness;
+// inst < 0: the state object of index `st` that is shared by all instruments (the same
+// (callback,state) pair can sit on two instruments); inst >= 0: the state object of index `st` that
+// is only ever registered on that instrument, so an invocation identifies the registration
 struct StateObj
 {
   ObsHarness *h;
   int st;
+  int inst;
 };
 
 struct Slot
 {
   std::map<int, Entry> script;
-  int calls_l = 0, calls_d = 0;
+  int calls_l = 0, calls_d = 0;  // invocations through the shared state object
 };
 struct Inst
 {
   int kind = 0;
   bool dbl = false;
   int meter = 0;
-  std::string name;
+  int group = 0;      // index of the first handle created with this instrument name
+  std::string name;   // instrument name (shared by the handles of one group)
+  std::string label;  // name, or name#index for a further handle
   nostd::shared_ptr<apim::ObservableInstrument> h;
   bool alive = true;
+  std::vector<std::string> streams;       // names of the streams the instrument's views produce
   std::map<int, Val> last;                // last observed value per set (ever)
   std::set<int> missing;                  // observed earlier, absent from a later observation
-  std::vector<std::map<int, Val>> given;  // per reader: total handed over so far (sum, delta)
+  // per stream, per reader: total handed over so far (sum, delta) / value handed over (others)
+  std::vector<std::vector<std::map<int, Val>>> given;
 };
 struct Reg
 {
   int slot;
   int inst;
+  int mult  = 1;  // how many times AddCallback was called for the triple
+  int calls = 0;  // own-state registrations: invocations in the current collection
 };
 
 template <int K>
@@ -454,12 +501,13 @@ struct ObsHarness
   explicit ObsHarness(vh::Case &cs) : c(cs)
   {
     for (int i = 0; i < kStates; ++i)
-      states.emplace_back(new StateObj{this, i});
+      states.emplace_back(new StateObj{this, i, -1});
     slots.resize(kSlots);
   }
   vh::Case &c;
   ClockGuard clock;
   std::vector<std::unique_ptr<StateObj>> states;
+  std::map<std::pair<int, int>, std::unique_ptr<StateObj>> own_states;
   std::vector<Slot> slots;
   std::vector<Inst> insts;
   std::vector<Reg> regs;
@@ -470,10 +518,28 @@ struct ObsHarness
   std::string cb_error;  // callbacks run below noexcept SDK frames: they report, the harness throws later
 
   static apim::ObservableCallbackPtr fn_of(int slot) { return slot / kStates == 0 ? &cb_fn<0> : &cb_fn<1>; }
-  void *state_of(int slot) { return states[static_cast<size_t>(slot % kStates)].get(); }
+  // callbacks with state index 2 use a state object per instrument
+  static bool own_mode(int slot) { return slot % kStates == 2; }
+  void *state_of(int slot, int inst)
+  {
+    int st = slot % kStates;
+    if (!own_mode(slot))
+      return states[static_cast<size_t>(st)].get();
+    auto &p = own_states[std::make_pair(st, inst)];
+    if (!p)
+      p.reset(new StateObj{this, st, inst});
+    return p.get();
+  }
   static std::string slot_name(int slot)
   {
     return "f" + std::to_string(slot / kStates) + "/st" + std::to_string(slot % kStates);
+  }
+  Reg *find_reg(int slot, int inst)
+  {
+    for (auto &r : regs)
+      if (r.slot == slot && r.inst == inst)
+        return &r;
+    return nullptr;
   }
   bool registered(int slot, int inst) const
   {
@@ -503,6 +569,33 @@ struct ObsHarness
         return false;
     return true;
   }
+  bool siblings(int a, int b) const
+  {
+    return a != b && insts[static_cast<size_t>(a)].group == insts[static_cast<size_t>(b)].group;
+  }
+  int handles_of_group(int group) const
+  {
+    int n = 0;
+    for (auto &in : insts)
+      n += in.group == group;
+    return n;
+  }
+  // the handles of one instrument name report disjoint attribute sets, over the whole history (a
+  // destroyed handle's series stay in its storage): does another handle of inst's name own `set`?
+  bool owned_by_sibling(int inst, int set) const
+  {
+    for (size_t j = 0; j < insts.size(); ++j)
+    {
+      if (!siblings(inst, static_cast<int>(j)))
+        continue;
+      if (insts[j].last.count(set))
+        return true;
+      for (auto &o : regs)
+        if (o.inst == static_cast<int>(j) && slots[static_cast<size_t>(o.slot)].script.count(set))
+          return true;
+    }
+    return false;
+  }
   // may `slot` start reporting `set`?  Callbacks of one instrument report disjoint sets.
   bool set_free(int slot, int set) const
   {
@@ -513,6 +606,8 @@ struct ObsHarness
       for (auto &o : regs)
         if (o.inst == r.inst && o.slot != slot && slots[static_cast<size_t>(o.slot)].script.count(set))
           return false;
+      if (owned_by_sibling(r.inst, set))
+        return false;
     }
     return true;
   }
@@ -521,7 +616,7 @@ struct ObsHarness
     for (auto &o : regs)
       if (o.inst == inst && o.slot != except_slot && slots[static_cast<size_t>(o.slot)].script.count(set))
         return true;
-    return false;
+    return owned_by_sibling(inst, set);
   }
   std::vector<int> alive_insts() const
   {
@@ -532,15 +627,35 @@ struct ObsHarness
     return v;
   }
 
-  void on_callback(int fn, int st, const apim::ObserverResult &res) noexcept
+  void on_callback(int fn, const StateObj *so, const apim::ObserverResult &res) noexcept
   {
-    int slot  = fn * kStates + st;
+    int slot  = fn * kStates + so->st;
     Slot &s   = slots[static_cast<size_t>(slot)];
     bool is_d = nostd::holds_alternative<nostd::shared_ptr<apim::ObserverResultT<double>>>(res);
-    (is_d ? s.calls_d : s.calls_l)++;
-    if (reg_count(slot) == 0 && cb_error.empty())
-      cb_error = "callback " + slot_name(slot) + " was invoked although it is not registered on any instrument" +
-                 (in_collect ? "" : " (outside Collect)");
+    if (so->inst < 0)
+    {
+      (is_d ? s.calls_d : s.calls_l)++;
+      if (reg_count(slot) == 0 && cb_error.empty())
+        cb_error = "callback " + slot_name(slot) + " was invoked although it is not registered on any instrument" +
+                   (in_collect ? "" : " (outside Collect)");
+    }
+    else
+    {
+      Reg *r         = find_reg(slot, so->inst);
+      const Inst &in = insts[static_cast<size_t>(so->inst)];
+      if (r)
+        r->calls++;
+      if (cb_error.empty())
+      {
+        if (!r)
+          cb_error = "callback " + slot_name(slot) + " (state object of " + in.label + ") was invoked although it is " +
+                     (in.alive ? "not registered on that instrument" : "only ever registered on a destroyed instrument") +
+                     (in_collect ? "" : " (outside Collect)");
+        else if (is_d != in.dbl)
+          cb_error = "callback " + slot_name(slot) + " registered on " + in.label + " was handed a " +
+                     (is_d ? "double" : "long") + " observer result";
+      }
+    }
     for (auto &kv : s.script)
     {
       const Entry &e = kv.second;
@@ -574,15 +689,98 @@ struct ObsHarness
   }
 
   // ------------------------------------------------------------------------------ operations
+  static sdkm::InstrumentType sdk_type(int kind)
+  {
+    return kind == kCounterK ? sdkm::InstrumentType::kObservableCounter
+                             : kind == kUpDownK ? sdkm::InstrumentType::kObservableUpDownCounter
+                                                : sdkm::InstrumentType::kObservableGauge;
+  }
+  void add_view(const Inst &in, const std::string &stream_name, bool explicit_aggregation)
+  {
+    // the aggregation named explicitly is the one the instrument kind has by default: the clause
+    // about running totals / latest values is about exactly these
+    sdkm::AggregationType agg = !explicit_aggregation ? sdkm::AggregationType::kDefault
+                                                      : in.kind == kGaugeK ? sdkm::AggregationType::kLastValue
+                                                                           : sdkm::AggregationType::kSum;
+    provider->AddView(
+        std::unique_ptr<sdkm::InstrumentSelector>(new sdkm::InstrumentSelector(sdk_type(in.kind), in.name, "1")),
+        std::unique_ptr<sdkm::MeterSelector>(new sdkm::MeterSelector("m" + std::to_string(in.meter), "", "")),
+        std::unique_ptr<sdkm::View>(new sdkm::View(stream_name, "", "", agg)));
+  }
+
   void create_inst(vh::Reader &rd)
   {
     Inst in;
     in.kind  = static_cast<int>(rd.below(3));
     in.dbl   = rd.coin();
     in.meter = static_cast<int>(rd.below(static_cast<uint32_t>(meters.size())));
-    // one name is never used twice on a meter (the storage registry is keyed by name: C06/F8)
-    in.name = "i" + std::to_string(insts.size());
-    in.given.resize(readers.size());
+    int idx  = static_cast<int>(insts.size());
+    in.group = idx;
+    in.name  = "i" + std::to_string(idx);
+    in.label = in.name;
+    // 0 plain; 1 a view renames the stream; 2 a view names the aggregation explicitly; 3 two views
+    // (two streams: the instrument's name and a second name, the second with explicit aggregation);
+    // 4 a further handle for an instrument that was created before (same name, kind, meter)
+    size_t shape     = rd.weighted({16, 2, 2, 2, 4});
+    std::string how  = "";
+    if (shape == 4 && !insts.empty())
+    {
+      // any earlier handle; names whose handles are all destroyed are three times as likely
+      std::vector<int> cand;
+      for (size_t j = 0; j < insts.size(); ++j)
+      {
+        bool live = false;
+        for (auto &o : insts)
+          live = live || (o.group == insts[j].group && o.alive);
+        cand.insert(cand.end(), live ? 1u : 3u, static_cast<int>(j));
+      }
+      const Inst &first =
+          insts[static_cast<size_t>(insts[static_cast<size_t>(cand[rd.below(static_cast<uint32_t>(cand.size()))])].group)];
+      in.kind    = first.kind;
+      in.dbl     = first.dbl;
+      in.meter   = first.meter;
+      in.group   = first.group;
+      in.name    = first.name;
+      in.label   = first.name + "#" + std::to_string(idx);
+      in.streams = first.streams;
+      bool live  = false;
+      for (auto &o : insts)
+        live = live || (o.group == in.group && o.alive);
+      how = live ? " further-handle" : " recreated";
+      c.tag(live ? "inst-further-live-handle" : "inst-recreated-after-destroy");
+      if (in.streams.size() > 1 || in.streams[0] != in.name)
+        c.tag("inst-further-handle-behind-view");
+    }
+    else
+    {
+      // the views of a name are registered before its first handle is created
+      switch (shape)
+      {
+        case 1:
+          in.streams = {"v" + std::to_string(idx)};
+          add_view(in, in.streams[0], false);
+          how = " view:renamed";
+          c.tag("view-renamed-stream");
+          break;
+        case 2:
+          in.streams = {in.name};
+          add_view(in, "", true);
+          how = " view:explicit-aggregation";
+          c.tag("view-explicit-aggregation");
+          break;
+        case 3:
+          in.streams = {in.name, "w" + std::to_string(idx)};
+          add_view(in, "", false);
+          add_view(in, in.streams[1], true);
+          how = " view:two-streams";
+          c.tag("view-two-streams");
+          break;
+        default:
+          in.streams = {in.name};
+          break;
+      }
+    }
+    in.given.assign(in.streams.size(), std::vector<std::map<int, Val>>(readers.size()));
     auto &m = *meters[static_cast<size_t>(in.meter)];
     clock.tick();
     // instrument names are plain NUL-terminated strings here: how names given as views are
@@ -599,8 +797,8 @@ struct ObsHarness
         in.h = in.dbl ? m.CreateDoubleObservableGauge(nm, ds, un) : m.CreateInt64ObservableGauge(nm, ds, un);
     }
     clock.tick();
-    c.note("create " + in.name + "=" + kind_name(in.kind) + (in.dbl ? "/double" : "/long") + "@m" +
-           std::to_string(in.meter) + "\n");
+    c.note("create " + in.label + "=" + kind_name(in.kind) + (in.dbl ? "/double" : "/long") + "@m" +
+           std::to_string(in.meter) + how + "\n");
     c.tag(std::string("inst-") + kind_name(in.kind) + (in.dbl ? "-double" : "-long"));
     insts.push_back(std::move(in));
   }
@@ -730,14 +928,41 @@ struct ObsHarness
           slot = (slot + i) % kSlots;
           break;
         }
-    if (registered(slot, inst))
-    {
-      // the same (callback,state) pair is registered at most once at a time on one instrument
-      c.note("add(already registered)\n");
-      return;
-    }
     Inst &in = insts[static_cast<size_t>(inst)];
     Slot &s  = slots[static_cast<size_t>(slot)];
+    if (Reg *again = find_reg(slot, inst))
+    {
+      // AddCallback of a triple that is registered already.  Whether the pair is then invoked once
+      // or once per AddCallback is left open (1..mult invocations are accepted, and RemoveCallback
+      // is repeated mult times); the values every reader is given are decided exactly, the script
+      // being the same in every invocation.
+      if (kHoldBack_double_registration || again->mult >= kMaxMult)
+      {
+        c.tag("add-of-registered-triple-not-generated");
+        c.note("add(already registered)\n");
+        return;
+      }
+      if (vh::excluded("C17-double-registration"))
+      {
+        vh::count_excluded("C17-double-registration");
+        c.note("add(already registered)\n");
+        return;
+      }
+      again->mult++;
+      c.tag("same-triple-added-again");
+      c.note("add " + slot_name(slot) + " -> " + in.label + " again (x" + std::to_string(again->mult) + ")\n");
+      clock.tick();
+      in.h->AddCallback(fn_of(slot), state_of(slot, inst));
+      clock.tick();
+      return;
+    }
+    for (auto &r : regs)
+      if (r.slot == slot && siblings(r.inst, inst))
+      {
+        // one script reported through two handles of one instrument name = overlapping sets
+        c.note("add(pair sits on another handle of the name)\n");
+        return;
+      }
     // make the pair's script fit the instrument: disjoint from the other callbacks of the
     // instrument, no boundary values / duplicates outside gauges, no negative monotonic totals
     for (auto it = s.script.begin(); it != s.script.end();)
@@ -757,7 +982,10 @@ struct ObsHarness
       }
     }
     if (reg_count(slot) > 0)
-      c.tag("pair-on-2-instruments");
+      c.tag(own_mode(slot) ? "callback-on-2-instruments-own-states" : "pair-on-2-instruments");
+    c.tag(own_mode(slot) ? "reg-own-state(count-per-triple)" : "reg-shared-state");
+    if (in.group != inst || handles_of_group(in.group) > 1)
+      c.tag("reg-on-instrument-with-several-handles");
     regs.push_back(Reg{slot, inst});
     if (s.script.empty())
     {
@@ -779,9 +1007,9 @@ struct ObsHarness
     std::string sc;
     for (auto &kv : s.script)
       sc += " " + std::to_string(kv.first) + "=" + show(kv.second);
-    c.note("add " + slot_name(slot) + " -> " + in.name + " script{" + sc + " }\n");
+    c.note("add " + slot_name(slot) + " -> " + in.label + " script{" + sc + " }\n");
     clock.tick();
-    in.h->AddCallback(fn_of(slot), state_of(slot));
+    in.h->AddCallback(fn_of(slot), state_of(slot, inst));
     clock.tick();
   }
 
@@ -795,10 +1023,14 @@ struct ObsHarness
     size_t i = rd.below(static_cast<uint32_t>(regs.size()));
     Reg r    = regs[i];
     regs.erase(regs.begin() + static_cast<long>(i));
-    c.note("remove " + slot_name(r.slot) + " from " + insts[static_cast<size_t>(r.inst)].name + "\n");
+    c.note("remove " + slot_name(r.slot) + " from " + insts[static_cast<size_t>(r.inst)].label +
+           (r.mult > 1 ? " (x" + std::to_string(r.mult) + ")" : "") + "\n");
     c.tag("op-remove");
+    if (r.mult > 1)
+      c.tag("op-remove-of-triple-added-several-times");
     clock.tick();
-    insts[static_cast<size_t>(r.inst)].h->RemoveCallback(fn_of(r.slot), state_of(r.slot));
+    for (int k = 0; k < r.mult; ++k)
+      insts[static_cast<size_t>(r.inst)].h->RemoveCallback(fn_of(r.slot), state_of(r.slot, r.inst));
     clock.tick();
     removed_since_collect = true;
   }
@@ -815,6 +1047,8 @@ struct ObsHarness
     Reg r      = regs[rd.below(static_cast<uint32_t>(regs.size()))];
     int slot   = r.slot;
     int inst   = r.inst;
+    // the state object handed to RemoveCallback is the one the near-miss triple would be registered with
+    int state_inst  = r.inst;
     const char *how = "";
     switch (rd.below(3))
     {
@@ -831,19 +1065,25 @@ struct ObsHarness
         auto alive = alive_insts();
         inst       = alive[rd.below(static_cast<uint32_t>(alive.size()))];
         how        = "other-instrument";
+        // same function and same state object as the registered triple, other instrument
+        if (inst == r.inst || (!own_mode(slot) && registered(slot, inst)))
+        {
+          c.note("remove-unregistered(no near miss)\n");
+          return;
+        }
         break;
       }
     }
-    if (registered(slot, inst))
+    if (inst == r.inst && registered(slot, inst))
     {
       c.note("remove-unregistered(no near miss)\n");
       return;
     }
     c.note(std::string("remove-unregistered ") + how + " " + slot_name(slot) + " from " +
-           insts[static_cast<size_t>(inst)].name + "\n");
+           insts[static_cast<size_t>(inst)].label + "\n");
     c.tag(std::string("op-remove-unregistered-") + how);
     clock.tick();
-    insts[static_cast<size_t>(inst)].h->RemoveCallback(fn_of(slot), state_of(slot));
+    insts[static_cast<size_t>(inst)].h->RemoveCallback(fn_of(slot), state_of(slot, state_inst));
     clock.tick();
     bogus_remove_since_collect = true;
   }
@@ -867,7 +1107,7 @@ struct ObsHarness
       }
       else
         ++it;
-    c.note("destroy " + in.name + "\n");
+    c.note("destroy " + in.label + "\n");
     c.tag(had ? "op-destroy-with-callbacks" : "op-destroy-no-callbacks");
     clock.tick();
     in.h     = nostd::shared_ptr<apim::ObservableInstrument>();
@@ -880,20 +1120,29 @@ struct ObsHarness
   // returns false when the case has to be abandoned (clock anomaly)
   bool op_collect(int r)
   {
-    // what this collection is going to observe, per instrument
+    // what this collection is going to observe, per instrument handle
     std::vector<std::map<int, Val>> cur(insts.size());
-    std::vector<int> exp_l(kSlots, 0), exp_d(kSlots, 0);
+    std::vector<int> min_l(kSlots, 0), max_l(kSlots, 0), min_d(kSlots, 0), max_d(kSlots, 0);
     for (auto &rg : regs)
     {
       Inst &in = insts[static_cast<size_t>(rg.inst)];
-      (in.dbl ? exp_d : exp_l)[static_cast<size_t>(rg.slot)]++;
+      rg.calls = 0;
+      if (!own_mode(rg.slot))
+      {
+        (in.dbl ? min_d : min_l)[static_cast<size_t>(rg.slot)] += 1;
+        (in.dbl ? max_d : max_l)[static_cast<size_t>(rg.slot)] += rg.mult;
+      }
       for (auto &kv : slots[static_cast<size_t>(rg.slot)].script)
       {
         VH_CHECK(c, !cur[static_cast<size_t>(rg.inst)].count(kv.first),
-                 "HARNESS BUG: two callbacks of " << in.name << " report set " << kv.first);
+                 "HARNESS BUG: two callbacks of " << in.label << " report set " << kv.first);
         cur[static_cast<size_t>(rg.inst)][kv.first] = value_of(kv.second, in.dbl);
       }
     }
+    for (size_t i = 0; i < insts.size(); ++i)
+      for (auto &kv : cur[i])
+        VH_CHECK(c, !owned_by_sibling(static_cast<int>(i), kv.first),
+                 "HARNESS BUG: two handles of " << insts[i].name << " report set " << kv.first);
     for (auto &s : slots)
       s.calls_l = s.calls_d = 0;
     std::vector<MD> got;
@@ -908,14 +1157,25 @@ struct ObsHarness
       return false;
     VH_CHECK(c, ok, line << ": MetricReader::Collect returned false");
     VH_CHECK(c, cb_error.empty(), line << ": " << cb_error);
+    // clause 1: exactly once per registration.  A triple that was added k times may be invoked 1..k times.
     for (int s = 0; s < kSlots; ++s)
     {
       const Slot &sl = slots[static_cast<size_t>(s)];
-      VH_CHECK(c, sl.calls_l == exp_l[static_cast<size_t>(s)] && sl.calls_d == exp_d[static_cast<size_t>(s)],
+      size_t z       = static_cast<size_t>(s);
+      VH_CHECK(c, sl.calls_l >= min_l[z] && sl.calls_l <= max_l[z] && sl.calls_d >= min_d[z] && sl.calls_d <= max_d[z],
                line << ": callback " << slot_name(s) << " was invoked " << sl.calls_l << "x (long) + " << sl.calls_d
-                    << "x (double) in one collection; it is registered on " << exp_l[static_cast<size_t>(s)]
-                    << " long and " << exp_d[static_cast<size_t>(s)] << " double instrument(s)");
+                    << "x (double) in one collection; it is registered on " << min_l[z] << " long and " << min_d[z]
+                    << " double instrument(s)"
+                    << (max_l[z] + max_d[z] > min_l[z] + min_d[z] ? " (some of them by more than one AddCallback)" : ""));
     }
+    for (auto &rg : regs)
+      if (own_mode(rg.slot))
+      {
+        c.tag("check-invocations-per-triple");
+        VH_CHECK(c, rg.calls >= 1 && rg.calls <= rg.mult,
+                 line << ": callback " << slot_name(rg.slot) << " registered on " << insts[static_cast<size_t>(rg.inst)].label
+                      << " (by " << rg.mult << " AddCallback) was invoked " << rg.calls << "x for that instrument in one collection");
+      }
     // model: the observation just made
     for (size_t i = 0; i < insts.size(); ++i)
     {
@@ -933,36 +1193,55 @@ struct ObsHarness
         in.last[kv.first] = kv.second;
       }
     }
-    // every stream belongs to exactly one instrument of the case
+    // every stream belongs to an instrument of the case; the points of one stream name, merged over
+    // the MetricData delivered under that name (one per handle of the instrument at most)
+    std::map<std::string, std::map<int, Val>> merged;
     for (auto &md : got)
     {
-      bool known = false;
+      const Inst *owner = nullptr;
       for (auto &in : insts)
-        known = known || in.name == md.name;
-      VH_CHECK(c, known, line << ": stream '" << md.name << "' does not belong to any instrument");
+        for (auto &st : in.streams)
+          if (!owner && st == md.name)
+            owner = &in;
+      VH_CHECK(c, owner, line << ": stream '" << md.name << "' does not belong to any instrument");
+      std::string what = line + " stream " + md.name + " of " + owner->name + "(" + kind_name(owner->kind) +
+                         (owner->dbl ? "/double" : "/long") + ")";
+      VH_CHECK(c, md.scope == "m" + std::to_string(owner->meter), what << ": delivered under scope " << md.scope);
+      int n = 0;
+      for (auto &o : got)
+        n += o.name == md.name;
+      VH_CHECK(c, n <= handles_of_group(owner->group),
+               what << ": " << n << " MetricData of that name in one collection, the instrument has "
+                    << handles_of_group(owner->group) << " handle(s)");
+      if (n > 1)
+        c.tag("several-metricdata-of-one-stream-name");
+      index_points_into(c, merged[md.name], md, owner->kind == kGaugeK ? 1 : 0, owner->dbl, what);
+      for (auto &kv : merged[md.name])
+      {
+        bool reported = false;
+        for (auto &in : insts)
+          reported = reported || (in.group == owner->group && in.last.count(kv.first));
+        VH_CHECK(c, reported, what << ": point for " << set_name(kv.first)
+                                   << " which no callback of this instrument ever reported");
+      }
     }
     int rk = readers[static_cast<size_t>(r)]->kind();
     for (size_t i = 0; i < insts.size(); ++i)
-    {
-      Inst &in      = insts[i];
-      const MD *mdp = nullptr;
-      for (auto &md : got)
-        if (md.name == in.name)
-        {
-          VH_CHECK(c, mdp == nullptr, line << ": two streams for instrument " << in.name);
-          mdp = &md;
-        }
-      static const MD kEmpty;
-      const MD &md     = mdp ? *mdp : kEmpty;
-      std::string what = line + " " + in.name + "(" + kind_name(in.kind) + (in.dbl ? "/double" : "/long") +
-                         (in.alive ? "" : ",destroyed") + ")";
-      if (mdp)
-        VH_CHECK(c, md.scope == "m" + std::to_string(in.meter), what << ": delivered under scope " << md.scope);
+     for (size_t sk = 0; sk < insts[i].streams.size(); ++sk)
+     {
+      Inst &in         = insts[i];
+      std::string what = line + " " + in.label + "(" + kind_name(in.kind) + (in.dbl ? "/double" : "/long") +
+                         (in.alive ? "" : ",destroyed") + ")" +
+                         (in.streams[sk] != in.name ? " stream " + in.streams[sk] : std::string());
+      if (in.streams.size() > 1)
+        c.tag("check-instrument-with-two-streams");
       bool delta = reader_is_delta(rk, in.kind);
-      auto pts   = index_points(c, md, in.kind == kGaugeK ? 1 : 0, in.dbl, what);
-      for (auto &kv : pts)
-        VH_CHECK(c, in.last.count(kv.first), what << ": point for " << set_name(kv.first)
-                                                  << " which no callback of this instrument ever reported");
+      // this handle's share of the stream: the sets it has ever reported (disjoint from the other
+      // handles of the name by construction)
+      std::map<int, Val> pts;
+      for (auto &kv : merged[in.streams[sk]])
+        if (in.last.count(kv.first))
+          pts[kv.first] = kv.second;
       if (in.kind == kGaugeK || !delta)
       {
         c.tag(in.kind == kGaugeK ? (delta ? "check-gauge-delta-reader" : "check-gauge-cumulative-reader")
@@ -979,7 +1258,7 @@ struct ObsHarness
         // reader's collection since this reader's previous one is still owed to this reader, also when
         // the set is not part of the current observation (it may only be omitted when this reader has
         // already been given exactly that value)
-        auto &given_c = in.given[static_cast<size_t>(r)];
+        auto &given_c = in.given[sk][static_cast<size_t>(r)];
         if (in.alive)
           for (auto &kv : in.last)
           {
@@ -996,7 +1275,7 @@ struct ObsHarness
       else
       {
         c.tag("check-sum-delta-reader");
-        auto &given = in.given[static_cast<size_t>(r)];
+        auto &given = in.given[sk][static_cast<size_t>(r)];
         for (auto &kv : cur[i])
         {
           Val g   = given.count(kv.first) ? given[kv.first] : zero_of(in.dbl);
@@ -1034,7 +1313,7 @@ struct ObsHarness
           given[kv.first] = in.last[kv.first];
         }
       }
-    }
+     }
     // non-triviality
     if (removed_since_collect)
     {
@@ -1064,7 +1343,7 @@ template <int K>
 void cb_fn(apim::ObserverResult res, void *state)
 {
   auto *s = static_cast<StateObj *>(state);
-  s->h->on_callback(K, s->st, res);
+  s->h->on_callback(K, s, res);
 }
 
 }  // namespace
@@ -1185,10 +1464,39 @@ struct GaugeBackend
 
 struct GaugeModel
 {
-  bool dbl = false;
+  bool dbl   = false;
+  int filter = 0;  // attribute allow-list of the gauge's view: 0 none, 1 {"k"}, 2 {"n"}
+  // all keyed by the set that is left after the allow-list (also a pool set)
   std::map<int, Val> latest;
-  std::vector<std::set<int>> since;  // per reader: sets recorded since its previous Collect
-  std::map<int, unsigned> times;     // per set: number of Records
+  std::vector<std::set<int>> since;        // per reader: sets recorded since its previous Collect
+  std::map<int, unsigned> times;           // per set: number of Records
+  std::map<int, std::set<int>> spellings;  // per set: the recorded sets that collapsed into it
+};
+// the pool set that remains of pool set `set` behind the allow-list `filter`
+int filtered_set(int filter, int set)
+{
+  static const int by_k[kSets] = {0, 1, 2, 1, 0, 0, 1};
+  static const int by_n[kSets] = {0, 0, 0, 4, 4, 5, 0};
+  return filter == 1 ? by_k[set] : filter == 2 ? by_n[set] : set;
+}
+std::unordered_map<std::string, bool> allow_list(int filter)
+{
+  std::unordered_map<std::string, bool> m;
+  m[filter == 1 ? "k" : "n"] = true;
+  return m;
+}
+const char *filter_name(int filter)
+{
+  return filter == 1 ? "/allow{k}" : filter == 2 ? "/allow{n}" : "";
+}
+class FixedCollector : public sdkm::CollectorHandle
+{
+public:
+  explicit FixedCollector(sdkm::AggregationTemporality t) : t_(t) {}
+  sdkm::AggregationTemporality GetAggregationTemporality(sdkm::InstrumentType) noexcept override { return t_; }
+
+private:
+  sdkm::AggregationTemporality t_;
 };
 
 Val gen_gauge_value(vh::Reader &rd, bool dbl, unsigned opno, const Val *old)
@@ -1217,13 +1525,19 @@ Val gen_gauge_value(vh::Reader &rd, bool dbl, unsigned opno, const Val *old)
   return value_of(e, dbl);
 }
 
-void run_sync_gauge(vh::Case &c, GaugeBackend &be, std::vector<GaugeModel> &gauges, const std::vector<int> &reader_kinds)
+// true_delta: a reader configured delta really collects with delta temporality (the SDK's
+// MetricCollector turns delta into cumulative for synchronous gauges)
+void run_sync_gauge(vh::Case &c,
+                    GaugeBackend &be,
+                    std::vector<GaugeModel> &gauges,
+                    const std::vector<int> &reader_kinds,
+                    bool true_delta)
 {
   vh::Reader &rd    = c.rd;
   unsigned nreaders = static_cast<unsigned>(reader_kinds.size());
   ClockGuard clock;
   int last_collector = -1;
-  bool interleaved = false, rerecorded = false;
+  bool interleaved = false, rerecorded = false, collapsed = false;
   unsigned opno = 0;
 
   auto do_collect = [&](int r) -> bool {
@@ -1269,7 +1583,9 @@ void run_sync_gauge(vh::Case &c, GaugeBackend &be, std::vector<GaugeModel> &gaug
                                                              << show(gm.latest[kv.first]));
       }
       gm.since[static_cast<size_t>(r)].clear();
-      c.tag(cumulative ? "check-syncgauge-cumulative-reader" : "check-syncgauge-delta-reader");
+      c.tag(cumulative ? "check-syncgauge-cumulative-reader"
+                       : true_delta ? "check-syncgauge-true-delta-reader"
+                                    : "check-syncgauge-delta-configured-reader(sdk-collects-cumulative)");
     }
     for (auto &md : got)
     {
@@ -1300,18 +1616,22 @@ void run_sync_gauge(vh::Case &c, GaugeBackend &be, std::vector<GaugeModel> &gaug
         std::advance(it, rd.below(static_cast<uint32_t>(gm.latest.size())));
         set = it->first;
       }
-      const Val *old = gm.latest.count(set) ? &gm.latest[set] : nullptr;
+      int key        = filtered_set(gm.filter, set);
+      const Val *old = gm.latest.count(key) ? &gm.latest[key] : nullptr;
       Val v          = gen_gauge_value(rd, gm.dbl, opno, old);
       int form       = set == 0 ? static_cast<int>(rd.below(4)) : 2 + static_cast<int>(rd.below(2));
       c.note("record g" + std::to_string(g) + " " + std::to_string(set) + "=" + show(v) + " form" + std::to_string(form) + "\n");
       clock.tick();
       be.record(g, set, v, form);
       clock.tick();
-      if (gm.times[set]++ > 0)
+      if (gm.times[key]++ > 0)
         rerecorded = true;
-      gm.latest[set] = v;
+      gm.spellings[key].insert(set);
+      if (gm.spellings[key].size() > 1)
+        collapsed = true;
+      gm.latest[key] = v;
       for (auto &s : gm.since)
-        s.insert(set);
+        s.insert(key);
     }
     else
       abandoned = !do_collect(static_cast<int>(rd.below(nreaders)));
@@ -1321,6 +1641,8 @@ void run_sync_gauge(vh::Case &c, GaugeBackend &be, std::vector<GaugeModel> &gaug
     abandoned = !do_collect(static_cast<int>((first + i) % nreaders));
   if (rerecorded)
     c.tag("set-recorded-more-than-once");
+  if (collapsed)
+    c.tag("allow-list-collapses-two-recorded-sets");
   if (interleaved)
     c.tag("readers-interleaved");
   c.nontrivial = (rerecorded || interleaved) && !abandoned;
@@ -1348,8 +1670,12 @@ struct StorageBackend final : GaugeBackend
 {
   std::shared_ptr<sdkm::MeterContext> ctx;
   std::vector<std::shared_ptr<TReader>> readers;
+  std::vector<std::unique_ptr<sdkm::AttributesProcessor>> procs;
   std::vector<std::unique_ptr<sdkm::SyncMetricStorage>> storages;
   std::vector<sdkm::InstrumentDescriptor> descs;
+  // not empty: collect with these handles (temporality exactly as configured) instead of the
+  // MeterContext's MetricCollectors
+  std::vector<std::shared_ptr<sdkm::CollectorHandle>> fixed;
 
   void record(int gauge, int set, const Val &v, int form) override
   {
@@ -1375,8 +1701,10 @@ struct StorageBackend final : GaugeBackend
   }
   bool collect(int reader, std::vector<MD> *out) override
   {
-    auto cols = ctx->GetCollectors();
-    bool ok   = true;
+    nostd::span<std::shared_ptr<sdkm::CollectorHandle>> cols = ctx->GetCollectors();
+    if (!fixed.empty())
+      cols = nostd::span<std::shared_ptr<sdkm::CollectorHandle>>(fixed.data(), fixed.size());
+    bool ok = true;
     for (auto &st : storages)
       ok = st->Collect(cols[static_cast<size_t>(reader)].get(), cols, ctx->GetSDKStartTime(),
                        std::chrono::system_clock::now(), [out](sdkm::MetricData md) {
@@ -1406,7 +1734,6 @@ VH_TARGET(sync_gauge_storage, 3,
     be.readers.emplace_back(new TReader(k));
     be.ctx->AddMetricReader(be.readers.back());
   }
-  static sdkm::DefaultAttributesProcessor proc;
   unsigned ng = c.rd.chance(30) ? 2 : 1;
   std::vector<GaugeModel> gauges(ng);
   for (unsigned g = 0; g < ng; ++g)
@@ -1414,16 +1741,38 @@ VH_TARGET(sync_gauge_storage, 3,
     gauges[g].dbl = c.rd.coin();
     gauges[g].since.resize(kinds.size());
     bool explicit_lv = c.rd.coin();
+    gauges[g].filter = static_cast<int>(c.rd.weighted({4, 1, 1}));
     sdkm::InstrumentDescriptor d{"g" + std::to_string(g), "d", "1", sdkm::InstrumentType::kGauge,
                                  gauges[g].dbl ? sdkm::InstrumentValueType::kDouble : sdkm::InstrumentValueType::kLong};
     be.descs.push_back(d);
+    if (gauges[g].filter)
+      be.procs.emplace_back(new sdkm::FilteringAttributesProcessor(allow_list(gauges[g].filter)));
+    else
+      be.procs.emplace_back(new sdkm::DefaultAttributesProcessor());
     be.storages.emplace_back(new sdkm::SyncMetricStorage(
-        d, explicit_lv ? sdkm::AggregationType::kLastValue : sdkm::AggregationType::kDefault, &proc, nullptr));
-    cfg += std::string(" g") + std::to_string(g) + (gauges[g].dbl ? "=double" : "=long") + (explicit_lv ? "/lastvalue" : "/default");
+        d, explicit_lv ? sdkm::AggregationType::kLastValue : sdkm::AggregationType::kDefault, be.procs.back().get(),
+        nullptr));
+    cfg += std::string(" g") + std::to_string(g) + (gauges[g].dbl ? "=double" : "=long") +
+           (explicit_lv ? "/lastvalue" : "/default") + filter_name(gauges[g].filter);
     c.tag(gauges[g].dbl ? "gauge-double" : "gauge-long");
+    if (gauges[g].filter)
+      c.tag("gauge-behind-attribute-allow-list");
   }
+  // the SDK's MetricCollector collects synchronous gauges cumulatively whatever the reader says; the
+  // delta path of the storage is reached with collector handles that answer as configured
+  bool true_delta = c.rd.chance(35);
+  if (true_delta)
+  {
+    for (int k : kinds)
+      be.fixed.emplace_back(new FixedCollector(reader_is_delta(k, kGaugeK) ? sdkm::AggregationTemporality::kDelta
+                                                                            : sdkm::AggregationTemporality::kCumulative));
+    cfg += " collector-handles-as-configured";
+    c.tag("collectors:handles-as-configured");
+  }
+  else
+    c.tag("collectors:sdk-metric-collectors");
   c.note(cfg + "\n");
-  run_sync_gauge(c, be, gauges, kinds);
+  run_sync_gauge(c, be, gauges, kinds, true_delta);
 }
 
 #if OPENTELEMETRY_ABI_VERSION_NO >= 2
@@ -1520,14 +1869,25 @@ VH_TARGET(sync_gauge_e2e, 3,
     gauges[g].since.resize(kinds.size());
     be.names.push_back("g" + std::to_string(g));
     const std::string &nm = be.names.back();
+    gauges[g].filter      = static_cast<int>(c.rd.weighted({4, 1, 1}));
+    if (gauges[g].filter)
+    {
+      be.provider->AddView(
+          std::unique_ptr<sdkm::InstrumentSelector>(new sdkm::InstrumentSelector(sdkm::InstrumentType::kGauge, nm, "1")),
+          std::unique_ptr<sdkm::MeterSelector>(new sdkm::MeterSelector("m0", "", "")),
+          std::unique_ptr<sdkm::View>(new sdkm::View(
+              "", "", "", sdkm::AggregationType::kDefault, nullptr,
+              std::unique_ptr<sdkm::AttributesProcessor>(new sdkm::FilteringAttributesProcessor(allow_list(gauges[g].filter))))));
+      c.tag("gauge-behind-attribute-allow-list");
+    }
     if (gauges[g].dbl)
       be.dg[g] = be.meter->CreateDoubleGauge(nm, "d", "1");
     else
       be.lg[g] = be.meter->CreateInt64Gauge(nm, "d", "1");
-    cfg += std::string(" g") + std::to_string(g) + (gauges[g].dbl ? "=double" : "=long");
+    cfg += std::string(" g") + std::to_string(g) + (gauges[g].dbl ? "=double" : "=long") + filter_name(gauges[g].filter);
     c.tag(gauges[g].dbl ? "gauge-double" : "gauge-long");
   }
   c.note(cfg + "\n");
-  run_sync_gauge(c, be, gauges, kinds);
+  run_sync_gauge(c, be, gauges, kinds, false);
 }
 #endif
